@@ -61,6 +61,23 @@ CHECKS = {
                   "under a deterministic line-level / SQL-statement-level scheduler",
         ref="DESIGN.md section 4 C03, section 3.2",
     ),
+    "C04": dict(
+        text="WaitQueue.tla models Study.ask as the code does it - list the WAITING trials (in-memory: from a cursor), try to "
+             "claim them one by one with the storage's compare-and-set, else create a fresh trial - and TLC checks "
+             "ClaimedAtMostOnce, NoSkipAtList, CreateOnlyIfNoneLeft, the cursor invariant and termination under fairness for "
+             "2-3 workers; the SQLite variant (read and write of the compare-and-set separate) and a wrong cursor must fail. "
+             "Real executions: enqueue_trial / add_trial(WAITING) / ask / suggest / tell programs on nine backends, and 2-3 "
+             "threads asking (one also enqueueing) concurrently under the line-level scheduler (in-memory, journal) and the "
+             "SQL-statement scheduler (SQLite); the queue is then drained. TLC validates every execution against "
+             "WaitQueueTrace: no trial handed out twice, fixed parameter values verbatim, number and user attributes kept, "
+             "nothing left in the queue.",
+        note="Trusted: TLC, the unique tag attribute that identifies a queued trial, line-level preemption. ask() raising "
+             "UpdateFinishedTrialError when the listed trial was claimed and finished meanwhile is admitted (D15). Known "
+             "finding K1 (SQLite double claim) matched by shape on the SQLite scheduler only.",
+        technique="TLA+ algorithm spec model-checked with TLC (safety, liveness, negative variants); real sequential and "
+                  "scheduled concurrent executions validated by TLC (trace validation)",
+        ref="DESIGN.md section 4 C04, section 3.6",
+    ),
     "C05": dict(
         text="Journal file: JournalFile.tla models append_logs/read_logs and both lock classes one system call per "
              "action, with Crash enabled at every point of an append and the grace-period takeover; TLC checks "
